@@ -49,11 +49,12 @@ type Sim struct {
 	sent  map[string]*SimRes // last content handed to the gateway per key
 	seq   map[string]int
 	nq    int
+	mut   map[string]bool // keys whose content was changed without an event
 }
 
 func newSim(w *World, cfg ScenarioCfg) *Sim {
 	s := &Sim{w: w, res: map[string]*SimRes{}, tmpl: map[string]*SimRes{}, qnorm: map[string]string{},
-		sent: map[string]*SimRes{}, seq: map[string]int{}}
+		sent: map[string]*SimRes{}, seq: map[string]int{}, mut: map[string]bool{}}
 	for k, r := range cfg.Resources {
 		r := r
 		if strings.Contains(k, "{cid}") {
@@ -522,6 +523,7 @@ func (s *Sim) mutate(k string, a int, kname string, val Val) bool {
 	default:
 		return false
 	}
+	s.mut[k] = true
 	s.w.add(Rec{"e": "mutate", "key": k})
 	return true
 }
